@@ -191,7 +191,7 @@ fn fill(spec_text: &'static str, cols: &mut [Utf32String]) {
     }
 }
 
-static REF_MATCHERS: std::sync::LazyLock<Mutex<(Matcher, Matcher)>> = std::sync::LazyLock::new(|| Mutex::new((Matcher::new(Config::DEFAULT), Matcher::new(Config::DEFAULT))));
+static REF_MATCHERS: Mutex<Vec<(Matcher, Matcher)>> = Mutex::new(Vec::new());
 
 struct Shared {
     obs: Mutex<Vec<Obs>>,
@@ -268,10 +268,11 @@ pub fn run_scenario(scn: &Scenario, prefix: &[usize]) -> RunResult {
             let mut last_text: Vec<String> = vec![String::new(); cols as usize];
             let mut tick_notify_base = 0u64;
             // reference matchers are reused across executions (creating one costs a 135 KiB zeroed allocation)
-            let mut refm_guard = REF_MATCHERS.lock().unwrap_or_else(|e| e.into_inner());
-            let (refm_a, refm_b) = &mut *refm_guard;
-            let mut refm: &mut Matcher = refm_a;
-            let mut refm2: &mut Matcher = refm_b;
+            // taken out of a pool and put back at the end: a thread of an abandoned (deadlocked)
+            // execution is parked for ever and must not hold a lock the next execution needs
+            let mut pair = REF_MATCHERS.lock().unwrap_or_else(|e| e.into_inner()).pop().unwrap_or_else(|| (Matcher::new(Config::DEFAULT), Matcher::new(Config::DEFAULT)));
+            let mut refm: &mut Matcher = &mut pair.0;
+            let mut refm2: &mut Matcher = &mut pair.1;
             let mut tick = |n: &mut Nucleo<ItemData>, gen: u32, base: &mut u64, refm: &mut Matcher| -> nucleo::Status {
                 let before = copy_snapshot(n, cols, refm);
                 *base = exec.notify_count();
@@ -409,6 +410,7 @@ pub fn run_scenario(scn: &Scenario, prefix: &[usize]) -> RunResult {
             exec.point("U:end", 0, Wait::None);
             drop(held);
             drop(nucleo);
+            REF_MATCHERS.lock().unwrap_or_else(|e| e.into_inner()).push(pair);
             });
             if let Err(p) = std::panic::catch_unwind(body) {
                 let msg = crate::dom::panic_msg(&p);
